@@ -60,7 +60,7 @@ class ambient:
         AMB.dims = self.dims
         AMB.counts = {}
         AMB.last = None
-        AMB.hop_budget = 2500
+        AMB.hop_budget = 200
         import warnings
         AMB.saved_filters = warnings.filters[:]
         return self
